@@ -31,7 +31,7 @@ type Plan struct {
 	LateTicks   bool     `json:"lateTicks"`
 	Tickers     []int    `json:"tickers"`
 	Policies    []string `json:"policies"`
-	Replay      int      `json:"replay"` // behaviours replayed on the real code (0 = all printed)
+	Replay      int      `json:"replay"`     // behaviours replayed on the real code (0 = all printed)
 	SharesPath  string   `json:"sharesPath"` // "" = "raw" (keyper.go as found) | "wrapped" (proposed repair GNO-1)
 }
 
